@@ -61,6 +61,19 @@ for sid in sorted(os.listdir(sd)):
                " ".join(m.get("detected_by_properties", []))))
 out.append("")
 out.append("%d of %d seeded changes are reported by at least one registered check.\n" % (nd, tot))
+M = json.load(open(os.path.join(V, "manifest_meta.json")))
+out.append("### 11.8 Per property: what the registered check decides now (generated from manifest_meta.json)\n")
+out.append("Where this differs from section 5 (the plan), this list is what holds. 'Not decided' clauses are part of the claim text on purpose: a property is claimed at the level of the clauses its units carry, never wholesale.\n")
+props = [json.loads(l) for l in open(os.path.join(V, "properties.jsonl"))]
+for pr in props:
+    pid = pr["id"]
+    if pid in M["claims"]:
+        c = M["claims"][pid]
+        mine = [u["id"] + (" (bounded)" if u.get("kind") == "bounded" else "") for u in U["units"] if pid in u["props"]] if pid != "C05" else ["every unit"]
+        out.append("* **%s - %s.** %s  \n  *Units:* %s.  \n  *Note:* %s" % (pid, pr["title"], c["text"], ", ".join(mine), c["note"]))
+    else:
+        out.append("* **%s - %s.** *not applicable:* %s" % (pid, pr["title"], M["not_applicable"].get(pid, "no unit")))
+out.append("")
 txt = "\n".join(out)
 p = os.path.join(V, "DESIGN.md")
 s = open(p).read()
